@@ -40,14 +40,15 @@ func vOffence(which int) []byte {
 // the offending field before or after a field that is added to the dynamic
 // table), refusal because MaxConcurrentStreams is reached, a body over
 // MaxRequestBodySize with DATA still in flight after the server's RST_STREAM,
-// cancellation by the peer while the handler runs, a stream window overflow -
+// cancellation by the peer while the handler runs, a stream window overflow,
+// DATA after the peer's own END_STREAM -
 // and its header block adds a dynamic-table entry that stream 5 then
 // references. Streams 1 and 5 must be served exactly once each, stream 3 must
 // fail alone, and the connection must stay up.
 //
 //verif:harness prop=C09,C08 unwind=64 timeout=600
 func VerifH_C09_isolate() {
-	scenario := vRange(0, 4)
+	scenario := vRange(0, 5)
 	max := uint32(8)
 	if scenario == 1 {
 		max = 1
@@ -166,6 +167,23 @@ func VerifH_C09_isolate() {
 		vSettle()
 		r = get()
 		vAssert(r.headers[3] == 0, "C09.isolate.no-response-on-a-cancelled-stream")
+	case 5: // DATA after the peer's own END_STREAM, the handlers still running (5.1: a stream error)
+		s.hold = true
+		s.send(vFrame(0x1, 0x5, 1, vReqBlock('1')))
+		get()
+		s.send(vFrame(0x1, 0x5, 3, vReqBlock('3', vInsertKV...)))
+		get()
+		s.send(vFrame(0x0, 0x1, 3, []byte("more")))
+		r := get()
+		vAssert(!r.goaway && r.rst[3] == StreamClosedError, "C09.isolate.data-after-end-stream-is-a-stream-error")
+		inc, _ := vWindowUpdates(all, 0, "C09.isolate.conn")
+		vAssert(int64(1<<22)-4+inc == int64(s.sc.currentWindow), "C09.isolate.its-octets-are-accounted-to-the-connection-window")
+		s.hold = false
+		s.gate <- struct{}{}
+		s.gate <- struct{}{}
+		vSettle()
+		r = get()
+		vAssert(r.headers[3] == 0, "C09.isolate.no-response-on-the-reset-stream")
 	default: // stream window overflow
 		s.send(vFrame(0x1, 0x5, 1, vReqBlock('1')))
 		get()
@@ -180,7 +198,7 @@ func VerifH_C09_isolate() {
 	s.send(vFrame(0x1, 0x5, 5, vReqBlock('5', ref...)))
 	r := get()
 	vNote(fmt.Sprintf("scenario %d later request: goaway=%v/%d rst=%v headers=%v handled=%v", scenario, r.goaway, r.goawayCode, r.rst, r.headers, s.handled))
-	tag := [5]string{"malformed", "refused", "reset-by-us", "cancelled", "window-overflow"}[scenario]
+	tag := [6]string{"malformed", "refused", "reset-by-us", "cancelled", "window-overflow", "data-after-end-stream"}[scenario]
 	vAssert(!r.goaway, "C09.isolate.connection-stays-up-after-"+tag)
 	vAssert(len(r.rst) == 0 && r.headers[5] == 1 && r.endStream[5] == 1, "C09.isolate.later-request-served-after-"+tag)
 	total := vClassify(all)
